@@ -278,7 +278,56 @@ def _job(args):
     return out
 
 
+def rescan_after_edit(ctx: Ctx, n: int):
+    """The architecture is a function of the tree as it is on disk at the time of the call: a project is scanned, then edited IN
+    PLACE (an import statement appended to one file, one removed from another, a new module file added), and scanned again from
+    the same paths with the same options.  The second scan must equal the scan of a fresh copy of the edited project."""
+    import os
+    for it in range(n):
+        rng = ctx.rng
+        root, dirs, files = scan.gen_tree(rng, max_depth=4)
+        scan.gen_imports(rng, dirs, files, nested=True)
+        pyfiles = [f for f, v in files.items() if v["py"]]
+        if len(pyfiles) < 2:
+            continue
+        mods = list(dirs) + pyfiles
+        files2 = {k: dict(v, body=list(v["body"])) for k, v in files.items()}
+        f = rng.choice(pyfiles)
+        files2[f]["body"].append(scan.gen_import_stmt(rng, f, mods))
+        g = rng.choice([x for x in pyfiles if x != f])
+        if files2[g]["body"]:
+            files2[g]["body"].pop(rng.randrange(len(files2[g]["body"])))
+        newf = rng.choice(dirs) + ("zz_new",)
+        if newf not in files2:
+            files2[newf] = {"py": True, "body": [("import", [scan.dotted(rng.choice(mods))])]}
+        mp = rng.choice([(root,)] + [d for d in dirs if len(d) == 2][:1])
+        kw = rng.choice([{}, {}, {"level_limit": 1}, {"exclude_external_libraries": False}])
+        base = scan.materialise(dirs, files)
+        ref = scan.materialise(dirs, files2)
+        try:
+            first = scan.real_scan(base, root, mp, **kw)
+            for k2, v2 in files2.items():
+                if v2["py"] and (k2 not in files or scan.render_v(files[k2]) != scan.render_v(v2)):
+                    with open(os.path.join(base, *k2[:-1], k2[-1] + ".py"), "w", encoding="utf-8", newline="") as fh:
+                        fh.write(scan.render_v(v2))
+            second = scan.real_scan(base, root, mp, **kw)
+            fresh = scan.real_scan(ref, root, mp, **kw)
+            ctx.evaluations += 3
+            if second[:3] != fresh[:3]:
+                ctx.violation(dict(dirs=[list(d) for d in dirs], files_before={scan.dotted(k): (scan.render_v(v) if v["py"] else None) for k, v in files.items()},
+                                   files_after={scan.dotted(k): (scan.render_v(v) if v["py"] else None) for k, v in files2.items()}, module_path=list(mp), options=kw,
+                                   rescan=str(second[:3])[:500], fresh_scan_of_the_edited_project=str(fresh[:3])[:500]),
+                              "a second scan of the same paths after the files were edited does not show the tree as it is now", {"kind": "rescan"})
+            if first[:3] != second[:3]:
+                ctx.mark_nontrivial(("rescan", it))
+        finally:
+            scan.cleanup(base)
+            scan.cleanup(ref)
+    ctx.stat("rescans_after_edit", n)
+
+
 def run(ctx: Ctx):
+    rescan_after_edit(ctx, 40 if ctx.quick else 1000)
     pos = [p for p in grammar_positions() if p[0] not in ("Interactive",)] + EXTRA_POSITIONS
     singles = [[p] for p in pos]
     paths = list(singles)
